@@ -10,7 +10,9 @@ package limit
 // outage-duration family, a server that drops every connection), `hold` steps let real time pass
 // during an outage (outage DURATION: the monitor lives on a wall-clock ticker).  After every step the
 // observable result (code of a take, multiset of codes of a concurrent burst, grant decision,
-// whether the request reached Redis) is compared with the specification's prediction.
+// whether the request reached Redis) is compared with the specification's prediction.  `step` moves the caller
+// clock by milliseconds: the time handed to AllowN is second `now` plus `sub` ms (the script gets now.Unix(), the
+// in-process bucket of the outage the full time).
 
 import (
 	"bufio"
@@ -896,14 +898,23 @@ func runC08Token(c kit.Case, cs *c08Server, store *redis.Redis, rep *kit.Reporte
 		}
 		kit.WaitFor(c08ReturnBound(), func() bool { return monitorIdle(tl) })
 	}()
-	now := int64(0)
+	now := int64(0) // caller clock: whole seconds ...
+	sub := int64(0) // ... and the millisecond within the second (model: now, sub)
+	clock := func() string {
+		if sub == 0 {
+			return fmt.Sprint(now)
+		}
+		return fmt.Sprintf("%d.%03d", now, sub)
+	}
 	nallow := 0
 	trail := []string{}
 	// real time, for the message and the coverage counters only: when the current outage began and when the
 	// first request failed in it (= the monitor's start, every Up of the model ends the monitor)
 	var tDown, tFail time.Time
-	// observed grants per deciding bucket, for the statement's bound burst + rate*t
-	type grant struct{ t, n int64 }
+	// observed grants per deciding bucket, for the statement's bound burst + rate*t: t in whole caller seconds for the
+	// Redis bucket (the script counts in seconds), in milliseconds for the in-process bucket (it is refilled continuously
+	// from the caller's clock); compared in millitokens
+	type grant struct{ t, ms, n int64 }
 	grants := map[string][]grant{}
 	boundOK := func(via string) (bool, string) {
 		g := grants[via]
@@ -911,8 +922,13 @@ func runC08Token(c kit.Case, cs *c08Server, store *redis.Redis, rep *kit.Reporte
 		sum := int64(0)
 		for i := j; i >= 0; i-- {
 			sum += g[i].n
-			if lim := int64(burst) + int64(rate)*(g[j].t-g[i].t); sum > lim {
-				return false, fmt.Sprintf("%d events admitted by the %s bucket between second %d and %d, bound burst+rate*t = %d", sum, via, g[i].t, g[j].t, lim)
+			lim := 1000 * (int64(burst) + int64(rate)*(g[j].t-g[i].t))
+			if via == "rescue" {
+				lim = 1000*int64(burst) + int64(rate)*(g[j].ms-g[i].ms)
+			}
+			if 1000*sum > lim {
+				return false, fmt.Sprintf("%d events admitted by the %s bucket between caller time %.3f s and %.3f s, bound burst+rate*t = %.3f",
+					sum, via, float64(g[i].ms)/1000, float64(g[j].ms)/1000, float64(lim)/1000)
 			}
 		}
 		return true, ""
@@ -922,7 +938,7 @@ func runC08Token(c kit.Case, cs *c08Server, store *redis.Redis, rep *kit.Reporte
 		switch op := kit.Str(st["op"]); op {
 		case "allow":
 			n := kit.Num(st["n"])
-			at := time.Unix(c08Base+now, 0)
+			at := time.Unix(c08Base+now, sub*int64(time.Millisecond))
 			before := cs.evals.Load()
 			nallow++
 			var got bool
@@ -941,14 +957,17 @@ func runC08Token(c kit.Case, cs *c08Server, store *redis.Redis, rep *kit.Reporte
 			v.Steps++
 			want, via := kit.Bool(st["granted"]), kit.Str(st["via"])
 			rep.Count("allow."+via, 1)
-			trail = append(trail, fmt.Sprintf("allow(t=%d,n=%d)=%v", now, n, got))
+			if sub != 0 {
+				rep.Count("allow."+via+".subsecond", 1)
+			}
+			trail = append(trail, fmt.Sprintf("allow(t=%s,n=%d)=%v", clock(), n, got))
 			if got != want {
 				return fail(i, fmt.Sprintf("C08:token:%s:granted=%v", via, got),
-					fmt.Sprintf("%s step %d AllowN(now=%d, n=%d) = %v, specification %v (decided by %s bucket); trail %s",
-						cfg, i, now, n, got, want, via, strings.Join(trail, " ")))
+					fmt.Sprintf("%s step %d AllowN(now=%s, n=%d) = %v, specification %v (decided by %s bucket); trail %s",
+						cfg, i, clock(), n, got, want, via, strings.Join(trail, " ")))
 			}
 			if got {
-				grants[via] = append(grants[via], grant{now, int64(n)})
+				grants[via] = append(grants[via], grant{now, now*1000 + sub, int64(n)})
 				if ok, msg := boundOK(via); !ok {
 					return fail(i, "C08:token:bound:"+via, fmt.Sprintf("%s step %d: %s; trail %s", cfg, i, msg, strings.Join(trail, " ")))
 				}
@@ -959,8 +978,8 @@ func runC08Token(c kit.Case, cs *c08Server, store *redis.Redis, rep *kit.Reporte
 			}
 			if reached != wantReached {
 				return fail(i, "C08:token:route:"+via,
-					fmt.Sprintf("%s step %d AllowN(now=%d, n=%d): %d script calls reached Redis, specification says the %s bucket decides; trail %s",
-						cfg, i, now, n, reached, via, strings.Join(trail, " ")))
+					fmt.Sprintf("%s step %d AllowN(now=%s, n=%d): %d script calls reached Redis, specification says the %s bucket decides; trail %s",
+						cfg, i, clock(), n, reached, via, strings.Join(trail, " ")))
 			}
 		case "tick":
 			now += int64(kit.Num(st["dc"]))
@@ -969,6 +988,13 @@ func runC08Token(c kit.Case, cs *c08Server, store *redis.Redis, rep *kit.Reporte
 			}
 			v.Steps++
 			trail = append(trail, fmt.Sprintf("tick(%d,%d)", kit.Num(st["dc"]), kit.Num(st["ds"])))
+		case "step":
+			// milliseconds pass on the caller clock only (the script is handed whole seconds, the in-process bucket the full time)
+			ms := int64(kit.Num(st["ms"]))
+			now, sub = now+(sub+ms)/1000, (sub+ms)%1000
+			v.Steps++
+			rep.Count("step", 1)
+			trail = append(trail, fmt.Sprintf("step(%dms)", ms))
 		case "down":
 			cs.down()
 			alive, outages = false, true
@@ -1020,7 +1046,7 @@ func runC08Token(c kit.Case, cs *c08Server, store *redis.Redis, rep *kit.Reporte
 				case c08NotReturned:
 					c08NoReturnSeen.Store(true)
 					e0 := cs.evals.Load()
-					tl.AllowN(time.Unix(c08Base+now, 0), 1) // the public face of the same fact (the verdict is already negative)
+					tl.AllowN(time.Unix(c08Base+now, sub*int64(time.Millisecond)), 1) // the public face of the same fact (the verdict is already negative)
 					return fail(i, "C08:token:no-return",
 						fmt.Sprintf("%s step %d: Redis answers again (%d direct PINGs of the driver in a row over %.1f s, %d pings of the limiter's monitor "+
 							"reached the server) but the limiter did not return to it: redisAlive=%d, monitorStarted=%v, a further AllowN sent %d script calls "+
